@@ -732,12 +732,15 @@ Definition readable_item (it : item) : Prop :=
   match it with IPCR0Data r1 r256 => readable r1 /\ readable r256 | _ => True end.
 
 (** a measurement whose extend comes with its log-add: TPMEvent (with a proper
-    event type) or the PCR0_DATA pair; a Panic step does nothing to the TPM *)
+    event type) or the PCR0_DATA pair; a Panic step does nothing to the TPM, and
+    neither does another TPMInit / InitTPM(_, false) (refused: already initialised) *)
 Definition meas_item (it : item) : Prop :=
   match it with
   | IEvent _ _ ty _ => ty <> EV_NO_ACTION
   | IPCR0Data r1 r256 => readable r1 /\ readable r256
   | IPanic => True
+  | IInit _ => True
+  | IInitTPM _ wl => wl = false
   | _ => False
   end.
 
@@ -786,8 +789,16 @@ Lemma meas_item_Inv l b t it acts s :
   meas_item it -> compile_item t it = Ok acts -> Inv l b (s_tpm s) ->
   Inv l b (s_tpm (fst (run_acts s acts))).
 Proof.
-  intros Hm Ec HI. destruct it as [l0|l0 wl|l0|p src ty evd|p src al|p al dg ty evd|r1 r256|];
+  intros Hm Ec HI.
+  assert (Reinit : forall l0, Inv l b (s_tpm (fst (run_acts s [AInit l0])))).
+  { intros l0. cbn [BootSim.run_acts BootSim.apply_act].
+    pose proof (Inv_fail l b (s_tpm s) (Startup l0) HI) as F.
+    rewrite (startup_outcome H) in F. destruct HI as (_ & Hi & _). rewrite Hi in F.
+    destruct (step H (s_tpm s) (Startup l0)) as [t1 r1]. cbn [fst with_tpm s_tpm] in *. apply F. discriminate. }
+  destruct it as [l0|l0 wl|l0|p src ty evd|p src al|p al dg ty evd|r1 r256|];
     cbn [meas_item] in Hm; try contradiction; cbn [BootSim.compile_item] in Ec.
+  - inversion Ec; subst acts. apply Reinit.
+  - subst wl. inversion Ec; subst acts. apply Reinit.
   - inversion Ec; subst acts. cbn [BootSim.run_acts BootSim.apply_act].
     destruct src as [d| |]; try (cbn [fst]; exact HI).
     destruct (converted d) as [msg|e| |]; try (cbn [fst]; exact HI).
@@ -865,17 +876,64 @@ Proof.
     + rewrite run_acts_app, E1. cbn [fst]. exact Fy.
 Qed.
 
-Lemma body_Inv l b t body : forall acts s,
-  Forall meas_item body -> compile_step t body = Ok acts -> Inv l b (s_tpm s) ->
+(** a TPM2_PCR_Extend-style measurement made of two actions: TPMExtend of the
+    converted bytes (a digest of the bank's size, e.g. through a Hasher converter)
+    into PCR 0 or 1, directly followed by the TPMEventLogAdd of that same digest *)
+Lemma pair_Inv l b p d a dg ty evd s :
+  (p = 0 \/ p = 1) -> is_supported a = true ->
+  converted d = Ok dg -> length dg = hsize a -> ty <> EV_NO_ACTION ->
+  Inv l b (s_tpm s) ->
+  Inv l b (s_tpm (fst (run_acts s [AExtend p (DS d) a; ALogAdd p a dg ty evd]))).
+Proof.
+  intros Hp Ha Ecv Hl Hty HI.
+  cbn [BootSim.run_acts BootSim.apply_act]. rewrite Ecv.
+  destruct HI as (Hw & Hi & Hrest).
+  pose proof (extend_outcome H (s_tpm s) p a dg Hw) as Ho.
+  assert (C : initialized (s_tpm s) && (0 <=? p) && (p <? 2) && is_supported a = true)
+    by (rewrite Hi, Ha; destruct Hp as [-> | ->]; reflexivity).
+  rewrite C in Ho. clear C.
+  assert (Hr : 0 <= a < 65536) by (destruct (is_supported_cases a Ha) as [-> | ->]; cbv; split; congruence).
+  specialize (Ho Hr).
+  destruct (step H (s_tpm s) (Extend p a dg)) as [t1 r1] eqn:E1. cbn [snd] in Ho. subst r1.
+  cbn [add_meas with_tpm s_tpm].
+  pose proof (Inv_ext_log l b (s_tpm s) p a dg ty evd t1 (conj Hw (conj Hi Hrest)) E1 Hl Hty) as HI2.
+  destruct (step H t1 (LogAdd p a dg ty evd)) as [t2 r2].
+  cbn [fst snd s_tpm with_tpm] in *. exact HI2.
+Qed.
+
+(** the measurements of a well-formed flow, in order *)
+Inductive meas_body : list item -> Prop :=
+| MB_nil : meas_body []
+| MB_item it r : meas_item it -> meas_body r -> meas_body (it :: r)
+| MB_pair p d a dg ty evd r :
+    (p = 0 \/ p = 1) -> is_supported a = true ->
+    converted d = Ok dg -> length dg = hsize a -> ty <> EV_NO_ACTION ->
+    meas_body r ->
+    meas_body (IExtend p (DS d) a :: ILogAdd p a dg ty evd :: r).
+
+Lemma meas_body_readable body : meas_body body -> Forall readable_item body.
+Proof.
+  induction 1; repeat constructor; try assumption. apply meas_item_readable. assumption.
+Qed.
+
+Lemma body_Inv l b t body : meas_body body -> forall acts s,
+  compile_step t body = Ok acts -> Inv l b (s_tpm s) ->
   Inv l b (s_tpm (fst (run_acts s acts))).
 Proof.
-  induction body as [|it r IH]; intros acts s Hm Ec HI; cbn [BootSim.compile_step] in Ec.
-  - inversion Ec; subst acts. exact HI.
-  - inversion Hm as [|? ? Hit Hr]; subst.
+  induction 1 as [|it r Hit Hr IH|p d a dg ty evd r Hp Ha Ecv Hl Hty Hr IH]; intros acts s Ec HI.
+  - cbn [BootSim.compile_step] in Ec. inversion Ec; subst acts. exact HI.
+  - cbn [BootSim.compile_step] in Ec.
     destruct (compile_item t it) as [x|e| |] eqn:E1; cbn [bind] in Ec; try discriminate.
     destruct (compile_step t r) as [y|e| |] eqn:E2; cbn [bind] in Ec; try discriminate.
-    inversion Ec; subst acts. rewrite run_acts_app. apply (IH y); [exact Hr|reflexivity|].
+    inversion Ec; subst acts. rewrite run_acts_app. apply (IH y); [reflexivity|].
     eapply meas_item_Inv; eauto.
+  - cbn [BootSim.compile_step BootSim.compile_item bind] in Ec.
+    destruct (compile_step t r) as [y|e| |] eqn:E2; cbn [bind] in Ec; try discriminate.
+    inversion Ec; subst acts. cbn [app].
+    change (AExtend p (DS d) a :: ALogAdd p a dg ty evd :: y)
+      with ([AExtend p (DS d) a; ALogAdd p a dg ty evd] ++ y).
+    rewrite run_acts_app. apply (IH y); [reflexivity|].
+    apply pair_Inv; assumption.
 Qed.
 
 (** ** The startup of a well-formed flow *)
@@ -895,7 +953,7 @@ Inductive startup_form (l : Z) : list item -> bool -> Prop :=
     (logged or not), then measurements each of which extends and logs the same
     digest.  Steps may group the items in any way. *)
 Definition wf_flow (l : Z) (logged : bool) (fl : list (list item)) : Prop :=
-  exists pre body, concat fl = pre ++ body /\ startup_form l pre logged /\ Forall meas_item body.
+  exists pre body, concat fl = pre ++ body /\ startup_form l pre logged /\ meas_body body.
 
 Lemma startup_Inv l pre b acts :
   startup_form l pre b -> compile_step fresh pre = Ok acts ->
@@ -918,7 +976,7 @@ Proof.
   assert (Hr : Forall readable_item (concat fl)).
   { rewrite Ec. apply Forall_app. split.
     - destruct Hf; repeat constructor.
-    - eapply Forall_impl; [|exact Hm]. apply meas_item_readable. }
+    - apply meas_body_readable. exact Hm. }
   destruct (run_flow_flat fl sim0 Hr) as (acts & Ea & ->). cbn [sim0 s_tpm] in Ea.
   rewrite Ec, compile_step_app in Ea.
   destruct (compile_step fresh pre) as [x|e| |] eqn:E1; cbn [bind] in Ea; try discriminate.
@@ -1130,14 +1188,23 @@ Lemma locality_200_replays :
             EL.replay toy_hash (to_parsed (evlog (toy_run fl_locality_200))) 0 ALG_SHA1 = Ok v.
 Proof. eexists. split; vm_compute; reflexivity. Qed.
 
-(** a TPMEvent whose event type is EV_NO_ACTION is extended but never replayed *)
+(** a TPMEvent whose event type is EV_NO_ACTION is extended into the PCR, but
+    tpm.EventLog.Replay skips its log entry and tpmeventlog.Replay rejects the
+    log (an EV_NO_ACTION entry is only accepted as the startup-locality entry) *)
 Definition fl_noaction_type : list (list (BootSim.item (list Z))) :=
-  [[IInitTPM 0 false]; [IEvent 1 toy_data EV_NO_ACTION None]].
+  [[IInitTPM 0 false]; [IEvent 0 toy_data EV_NO_ACTION None]; [IEvent 1 toy_data EV_NO_ACTION None]].
 
 Lemma noaction_type_differs :
-  exists v, get (pcrs (toy_run fl_noaction_type)) 1 ALG_SHA256 = Ok v /\
-            EL.replay toy_hash (to_parsed (evlog (toy_run fl_noaction_type))) 1 ALG_SHA256 <> Ok v.
-Proof. eexists. split; [vm_compute; reflexivity|]. vm_compute. discriminate. Qed.
+  exists v0 v1,
+    get (pcrs (toy_run fl_noaction_type)) 0 ALG_SHA1 = Ok v0 /\
+    get (pcrs (toy_run fl_noaction_type)) 1 ALG_SHA1 = Ok v1 /\
+    EL.tpm_replay toy_hash (to_entries (evlog (toy_run fl_noaction_type))) 0 ALG_SHA1 0 <> Ok v0 /\
+    EL.replay toy_hash (to_parsed (evlog (toy_run fl_noaction_type))) 0 ALG_SHA1 <> Ok v0 /\
+    EL.replay toy_hash (to_parsed (evlog (toy_run fl_noaction_type))) 1 ALG_SHA1 <> Ok v1.
+Proof.
+  eexists. eexists. split; [vm_compute; reflexivity|]. split; [vm_compute; reflexivity|].
+  split; [|split]; vm_compute; discriminate.
+Qed.
 
 (** Commands.Apply stops at the command that failed in the flow (second TPMInit) *)
 Definition fl_double_init : list (list (BootSim.item (list Z))) :=
